@@ -276,6 +276,20 @@ def run_removal(inst, leaving, seed, lines=False, second=False):
         return orig_lost(self, agent)
 
     ucs_mod.UCSReplication._answer_lost_requests = answer_lost
+    # injected delay at the end of a repair computation (between "the winner re-replicates" and "the losers drop their old
+    # replica"): widens the window in which the new host's requests meet candidates that have not finished yet
+    orig_fin = agents_mod.ResilientAgent._on_repair_computation_finished
+    fin_rng = _r.Random(seed + 99)
+    fin_lock = threading.Lock()
+
+    def repair_finished(self, computation):
+        with fin_lock:
+            d_ = fin_rng.choice([0, 0, 0.003, 0.02])
+        if d_:
+            time.sleep(d_)
+        return orig_fin(self, computation)
+
+    agents_mod.ResilientAgent._on_repair_computation_finished = repair_finished
     Messaging.post_msg, Messaging.next_msg = post_msg, next_msg
     oam.OrchestratedAgent.__init__ = agent_init
     om.AgentsMgt._dump_repair_metrics = dump
@@ -302,6 +316,7 @@ def run_removal(inst, leaving, seed, lines=False, second=False):
         per.stop()
         Messaging.post_msg, Messaging.next_msg = orig_post, orig_next
         ucs_mod.UCSReplication._answer_lost_requests = orig_lost
+        agents_mod.ResilientAgent._on_repair_computation_finished = orig_fin
         oam.OrchestratedAgent.__init__ = orig_init
         om.AgentsMgt._dump_repair_metrics = orig_dump
         if o is not None:
